@@ -17,6 +17,7 @@ import faulthandler
 import functools
 import gc
 import json
+import logging
 import os
 import signal
 import sys
@@ -117,6 +118,8 @@ def make_exception(kind):
         "InvalidStateError": lambda: __import__("concurrent.futures").futures.InvalidStateError("state"),
         "FuturesCancelledError": lambda: __import__("concurrent.futures").futures.CancelledError("cf"),
         "SystemExit": lambda: SystemExit(3),
+        "SystemExitZero": lambda: SystemExit(0),
+        "SystemExitNone": lambda: SystemExit(),
         "GeneratorExit": lambda: GeneratorExit("gen"),
         "CustomBase": lambda: CustomBase("base"),
         "KeyboardInterrupt": lambda: KeyboardInterrupt(),
@@ -401,7 +404,7 @@ def common_op(world, pspec, op):
     elif kind == "raise":
         exc = make_exception(op[1])
         world.raised[pid] = exc
-        LOG("fail", pid=pid, gen=world.gen, how="raise", what=op[1])
+        LOG("fail", pid=pid, gen=world.gen, how="raise", what=op[1], accepting=bool(getattr(world.runner, "running", None) and world.runner.running.is_set()))
         raise exc
     elif kind == "return":
         value = make_value(op[1])
@@ -787,10 +790,24 @@ def play(world, ops, by):
                 SERVICE_SPECS.pop(id(gone), None)
                 del gone
                 gc.collect()
+            elif kind == "shutdown_burst":
+                # op[1] threads call shutdown() at the same instant
+                barrier = threading.Barrier(op[1])
+
+                def together(name):
+                    barrier.wait()
+                    do_shutdown(world, by=name)
+
+                for i in range(op[1]):
+                    t = threading.Thread(target=together, args=("%s/burst%d" % (by, i),), daemon=True)
+                    world.helpers.append(t)
+                    t.start()
             elif kind == "thread":
                 t = threading.Thread(target=play, args=(world, op[1], "%s/helper%d" % (by, id(op) % 1000)), daemon=True)
                 world.helpers.append(t)
                 t.start()
+            elif kind == "probe_running":
+                LOG("probe", gen=world.gen, accepting=world.runner.running.is_set())
             elif kind == "quiesce":
                 if len(op) > 2:
                     # settle first: the submitting helper threads are done and no payload has started for op[1] seconds
@@ -896,34 +913,54 @@ def run_generation(gen_spec, index):
         threading.Thread(target=tick, name="ticker", daemon=True).start()
     thread = threading.Thread(target=driver, args=(world,), name="driver", daemon=True)
     thread.start()
-    LOG("call", op="accept", gen=index)
-    try:
+    def accept_and_log():
+        LOG("call", op="accept", gen=index)
         try:
-            world.runner.accept()
-        finally:
-            world.accept_done.set()
-    except BaseException as err:  # noqa: B036
-        reach = causes(err)[1:] if isinstance(err, RuntimeError) else []
-        matched = []
-        for pid, exc in list(world.raised.items()):
-            if any(r is exc for r in reach):
-                matched.append(pid)
-            elif isinstance(exc, BaseExceptionGroup):
-                # "looking through exception groups": trio's cancel scopes split() groups, which
-                # re-derives nested group objects - the leaves keep their identity
-                leaves = [x for x in causes(exc) if not isinstance(x, BaseExceptionGroup)]
-                if leaves and all(any(r is leaf for r in reach) for leaf in leaves):
+            try:
+                world.runner.accept()
+            finally:
+                world.accept_done.set()
+        except BaseException as err:  # noqa: B036
+            reach = causes(err)[1:] if isinstance(err, RuntimeError) else []
+            matched = []
+            for pid, exc in list(world.raised.items()):
+                if any(r is exc for r in reach):
                     matched.append(pid)
-        for pid, value in list(world.returned.items()):
-            if any(isinstance(r, OrphanedReturn) and r.value is value for r in reach):
-                matched.append(pid)
-        direct = [pid for pid, exc in list(world.raised.items()) if any(r is exc for r in causes(err))]
-        LOG("accept-ended", gen=index, outcome="raised", exc=type(err).__name__, msg=str(err)[:200],
-            cause=type(err.__cause__).__name__ if err.__cause__ is not None else None,
-            matched=sorted(set(matched)), reach=[type(r).__name__ for r in reach][:12], direct=sorted(set(direct)),
-            reach_msgs=[str(r)[:160] for r in reach if not isinstance(r, BaseExceptionGroup)][:6])
+                elif isinstance(exc, BaseExceptionGroup):
+                    # "looking through exception groups": trio's cancel scopes split() groups, which
+                    # re-derives nested group objects - the leaves keep their identity
+                    leaves = [x for x in causes(exc) if not isinstance(x, BaseExceptionGroup)]
+                    if leaves and all(any(r is leaf for r in reach) for leaf in leaves):
+                        matched.append(pid)
+            for pid, value in list(world.returned.items()):
+                if any(isinstance(r, OrphanedReturn) and r.value is value for r in reach):
+                    matched.append(pid)
+            direct = [pid for pid, exc in list(world.raised.items()) if any(r is exc for r in causes(err))]
+            LOG("accept-ended", gen=index, outcome="raised", exc=type(err).__name__, msg=str(err)[:200],
+                cause=type(err.__cause__).__name__ if err.__cause__ is not None else None,
+                matched=sorted(set(matched)), reach=[type(r).__name__ for r in reach][:12], direct=sorted(set(direct)),
+                reach_msgs=[str(r)[:160] for r in reach if not isinstance(r, BaseExceptionGroup)][:6])
+        else:
+            LOG("accept-ended", gen=index, outcome="returned")
+
+    if gen_spec.get("accept_in_thread"):
+        # the runtime runs in a thread of its own (as the test suite and embedding applications do); the main thread plays
+        # `main_script` - it is the one a SIGINT interrupts
+        runtime = threading.Thread(target=accept_and_log, name="runtime", daemon=True)
+        runtime.start()
+        try:
+            play(world, gen_spec.get("main_script", []), "main")
+        except KeyboardInterrupt:
+            LOG("main-interrupted", gen=index)
+        for _ in range(600):
+            try:
+                runtime.join(timeout=0.05)
+            except KeyboardInterrupt:
+                LOG("main-interrupted", gen=index)
+            if not runtime.is_alive():
+                break
     else:
-        LOG("accept-ended", gen=index, outcome="returned")
+        accept_and_log()
     # stragglers: anything a coroutine payload logs from now on is "after the call ended"
     try:
         time.sleep(gen_spec.get("grace", 0.4))
@@ -982,6 +1019,19 @@ def main():
         spec = json.load(f)
     LOG = Log(events_file)
     stack_file = STACK_FILE = open(events_file + ".stacks", "w")
+
+    class AcceptorLog(logging.Handler):
+        """How the accept loop of the service runner ended, as it reports it on its own logger."""
+
+        def emit(self, record):
+            for word in ("started", "stopped", "cancelled", "aborted"):
+                if str(record.msg).endswith(word):
+                    LOG("acceptor", gen=WORLD.gen if WORLD is not None else None, how=word)
+
+    services_log = logging.getLogger("cobald.runtime.daemon.services")
+    services_log.setLevel(logging.INFO)
+    services_log.propagate = False
+    services_log.addHandler(AcceptorLog())
     faulthandler.enable(file=stack_file)
     faulthandler.dump_traceback_later(spec.get("watchdog", 20), exit=True, file=stack_file)
     inj = None
